@@ -1,7 +1,8 @@
 // C10: busy-circuit protocol and exception safety of Circuit::legalize / placeDetailed (placeGlobal: parameter rejection only).
 #include "all_src.h"
 using namespace coloquinte;
-struct Ctx { Circuit* c; int calls; int throwAt; int setter; bool setterRefused; bool setterRan; };
+struct Ctx { Circuit* c; int calls; int throwAt; int setter; bool setterRefused; bool setterRan; int excKind; };
+struct UserFailure { int code; };   // an exception type outside the std::exception hierarchy ("by any exception")
 static bool callSetter(Circuit& c, int which) {   // returns true if the setter raised an error
   try {
     switch (which) {
@@ -28,7 +29,8 @@ extern "C" void harness() {
   p.detailed.nbPasses = 1; p.detailed.shiftMaxNbCells = 0; p.detailed.reorderingMaxNbCells = 0;
   int stage = __verif_choice(2);
   int scenario = infeasible ? 0 : __verif_choice(3);   // 0: plain, 1: callback throws at some index, 2: rejected parameters
-  Ctx ctx; ctx.c = &c; ctx.calls = 0; ctx.throwAt = -1; ctx.setter = __verif_choice(7); ctx.setterRefused = true; ctx.setterRan = false;
+  Ctx ctx; ctx.c = &c; ctx.calls = 0; ctx.throwAt = -1; ctx.setter = __verif_choice(7); ctx.setterRefused = true; ctx.setterRan = false; ctx.excKind = 0;
+  if (scenario == 1) ctx.excKind = __verif_choice(2);
   if (scenario == 1) ctx.throwAt = __verif_choice(stage == 0 ? 1 : 2);
   if (scenario == 2) { if (__verif_choice(2)) p.legalization.orderingWidth = 3.0; else p.detailed.shiftNbRows = 0; }
   Ctx* cp = &ctx;
@@ -40,13 +42,14 @@ extern "C" void harness() {
     cp->setterRan = true;
     if (!refused) cp->setterRefused = false;
     int k = cp->calls++;
-    if (k == cp->throwAt) throw std::runtime_error("callback failure");
+    if (k == cp->throwAt) { if (cp->excKind == 1) throw UserFailure{7}; throw std::runtime_error("callback failure"); }
   };
   std::vector<int> bx = c.cellX(), by = c.cellY(); std::vector<CellOrientation> bo = c.cellOrientation();
   bool threw = false;
   try {
     if (stage == 0) c.legalize(p, cb); else c.placeDetailed(p, cb);
   } catch (const std::runtime_error&) { threw = true; }
+  catch (const UserFailure&) { threw = true; }
   __verif_cover("placement call ended");
   VASSERT(ctx.setterRefused, "structural setters are refused while a placement call is in progress");
   bool expectThrow = infeasible || scenario != 0;
